@@ -15,16 +15,21 @@ type ctxKey string
 type ctxIn struct {
 	ctx    context.Context
 	cancel context.CancelFunc
-	state  int // 0 live, 1 already cancelled, 2 nil
+	state  int // 0 live, 1 already cancelled, 2 nil, 3 never cancellable (Done() == nil)
 }
 
 func mkInput(name string, allowNil bool) ctxIn {
-	n := 2
+	n := 3
 	if allowNil {
-		n = 3
+		n = 4
 	}
 	st := vrt.Choose(n, 0)
 	if st == 2 {
+		// a context that can never be cancelled: it stays live for ever
+		vrt.Log("input", name, "never")
+		return ctxIn{ctx: context.WithValue(context.Background(), ctxKey("who"), name), cancel: func() {}, state: 3}
+	}
+	if st == 3 {
 		vrt.Log("input", name, "nil")
 		return ctxIn{state: 2, cancel: func() {}}
 	}
@@ -88,7 +93,12 @@ func combineScenario() {
 	p.cancel()
 	o1.cancel()
 	o2.cancel()
-	awaitErr(r)
+	if p.state != 3 || o1.state <= 1 || o2.state <= 1 {
+		awaitErr(r) // some input is (now) cancelled
+	} else {
+		settle()
+		vrt.Log("still-live", r.Err() == nil)
+	}
 	vrt.Log("end")
 }
 
@@ -104,6 +114,9 @@ func conflatedScenario() {
 		var wg sync.WaitGroup
 		live := 0
 		for i, in := range ins {
+			if in.state == 3 {
+				live++ // never cancellable: keeps the result live for ever
+			}
 			if in.state == 0 {
 				if mask&(1<<i) != 0 {
 					wg.Add(1)
@@ -135,8 +148,13 @@ func conflatedScenario() {
 	for _, in := range ins {
 		in.cancel()
 	}
-	awaitErr(r)
+	if ins[0].state != 3 && ins[1].state != 3 && ins[2].state != 3 {
+		awaitErr(r) // every input is cancelled now
+	} else if !allPre {
+		settle()
+	}
 	cancel()
+	awaitErr(r)
 	vrt.Log("end")
 }
 
